@@ -113,9 +113,11 @@ def _case(draw):
                 blocks.append({"new": False, "fields": fields, "comment": draw(st.booleans())})
             else:
                 blocks.append(draw(_new_block((("/top" if depth else "/"), names))))
-        linkfiles.append([lf, blocks])
+        # how the blocks are laid out in the file: one or several blank lines between them, a blank line or a header comment first
+        layout = [draw(st.sampled_from(["", "", "\n", "# link file\n\n", "\n\n# about\n\n"])), draw(st.sampled_from(["\n", "\n", "\n\n", "\n\n\n", "\n \n"]))]
+        linkfiles.append([lf, blocks, layout])
     caps = []
-    linked = {f[1][2:] for _, bl in linkfiles for b in bl if not b["new"] for f in b["fields"] if f[0] == "Path"}
+    linked = {f[1][2:] for lfe in linkfiles for b in lfe[1] if not b["new"] for f in b["fields"] if f[0] == "Path"}
     for target in draw(st.lists(st.sampled_from(names), max_size=2, unique=True)):
         # an entry hidden by its .cap file is not listed any more: a link-file override of it has no documented meaning
         # what follows the block in the .cap file (only its first block counts): nothing, blank lines, a comment, another block
@@ -169,8 +171,10 @@ def _build(case):
             if c["abstract"]:
                 spec.append([pre + c["name"] + ".abstract", "f", "".join(l + "\n" for l in c["abstract"])])
     linktexts = {}
-    for lf, blocks in case["linkfiles"]:
-        text = "\n".join(_block_text(b) for b in blocks)
+    for lfe in case["linkfiles"]:
+        lf, blocks = lfe[0], lfe[1]
+        head, sep = lfe[2] if len(lfe) > 2 else ("", "\n")
+        text = head + sep.join(_block_text(b) for b in blocks)
         linktexts[lf] = text
         spec.append([pre + lf, "f", text])
     captexts = {}
@@ -202,8 +206,8 @@ def check_case(case, ctx):
         want, hidden = L.umn_listing(cfg, dsel, children, [linktexts[k] for k in linktexts], captexts,
                                      case["extstrip"], ignorepatt)
         r = drive.serve(cfg, clients.encode("gopher", world.b(dsel)))
-        nov = sum(1 for _, bl in case["linkfiles"] for b in bl if not b["new"]) + len(case["caps"])
-        nnew = sum(1 for _, bl in case["linkfiles"] for b in bl if b["new"])
+        nov = sum(1 for lfe in case["linkfiles"] for b in lfe[1] if not b["new"]) + len(case["caps"])
+        nnew = sum(1 for lfe in case["linkfiles"] for b in lfe[1] if b["new"])
         nums = {L.group_of(e) for e in want}
         if (nov and nnew) or hidden or len(nums) > 1:
             ctx.nontriv()
